@@ -1,5 +1,12 @@
 From Coq Require Import Extraction ExtrOcamlBasic NArith ZArith.
 From V Require Import C01.Model.
+From V Require Import C01.BitArray.
 Extraction "c01_model.ml" t_run abs_run t_root t_spec_root t_canon t_get s_run commitment empty_state
   contract_root class_root storage_root bits_of_Z N.of_nat Z.of_N
-  t1_run t1_empty t1_dump t1_root_key t1_dirty.
+  t1_run t1_empty t1_dump t1_root_key t1_dirty
+  (* core/trie/bitarray.go and node.go WriteTo/UnmarshalBinary at word / byte level *)
+  val bits wfb inrangeb truncate lsbs_from_lsb lsbs msbs rsh lsh append append_bit append_zeros subset
+  ba_or ba_and ba_xor ba_eqb oba_eqb ba_equal_msbs ba_common_msbs bit bit_from_lsb ba_is_bit_set
+  is_bit_set_from_lsb ba_msb ba_lsb ba_is_empty ba_len ba_cmp set_bit ones zeros set_uint64 new_bit_array
+  set_bytes set_felt set_felt251 ba_felt bytes32 ba_write ba_unmarshal encoded_len encoded_string ba_path
+  find_first_set_bit node_encode node_decode node_fill N_of_bits.
